@@ -191,7 +191,9 @@ func accessorSweep(v cty.Value) (msg string) {
 			msg = fmt.Sprintf("accessor panicked in sweep: %v", p)
 		}
 	}()
-	_ = v.GoString()
+	if !hugeNumber(v, 0) {
+		_ = v.GoString() // (printing a number with an astronomically large exponent takes minutes; not this property's subject)
+	}
 	_ = v.Type().GoString()
 	_ = v.Type().FriendlyName()
 	_ = v.IsWhollyKnown()
@@ -283,6 +285,39 @@ func sweep(v cty.Value, depth int) string {
 	return ""
 }
 
+// hugeNumber reports whether v holds a number whose binary exponent is so large
+// that printing it in decimal is infeasible.
+func hugeNumber(v cty.Value, depth int) (huge bool) {
+	defer func() {
+		if recover() != nil {
+			huge = false
+		}
+	}()
+	u, _ := v.Unmark()
+	if !u.IsKnown() || u.IsNull() || depth > 8 {
+		return false
+	}
+	ty := u.Type()
+	switch {
+	case ty == cty.Number:
+		f := u.AsBigFloat()
+		if f.IsInf() {
+			return false
+		}
+		e := f.MantExp(nil)
+		return e > 40000 || e < -40000
+	case ty == cty.DynamicPseudoType || ty.IsPrimitiveType() || ty.IsCapsuleType():
+		return false
+	}
+	for it := u.ElementIterator(); it.Next(); {
+		_, ev := it.Element()
+		if hugeNumber(ev, depth+1) {
+			return true
+		}
+	}
+	return false
+}
+
 func stateOf(v cty.Value) string {
 	u, _ := v.Unmark()
 	s := ""
@@ -322,18 +357,16 @@ func (m *monitor) see(site, class string, v cty.Value, wit func() string) bool {
 		return true
 	}
 	cls := class
+	state := "NilVal"
 	if v != cty.NilVal {
-		cls = strings.TrimSpace(class + " -> " + stateOf(v))
+		state = stateOf(v)
 	}
 	w := wit()
 	result := "NilVal"
 	if v != cty.NilVal {
-		o := core.Guard(func() { result = fmt.Sprintf("%#v", v) })
-		if o.Panicked {
-			result = "<GoString panicked: " + o.PanicMsg + ">"
-		}
+		result = gs(v)
 	}
-	detail := fmt.Sprintf("returned %s\npublic-API walk: %q\nhook walk: %q\nsweep: %q", result, pub, hk, extra)
+	detail := fmt.Sprintf("returned (%s) %s\npublic-API walk: %q\nhook walk: %q\nsweep: %q", state, result, pub, hk, extra)
 	pc, hc := clauseOf(pub), clauseOf(hk)
 	if pc != "" {
 		m.c.Count("ill-formed(public):" + pc)
